@@ -35,6 +35,20 @@ def check(res, tier, seed):
         res.violation("remote-crash", "the process died while linking a remote definition: %s" % (out.strip().splitlines() or ["?"])[-1][:300], dict(output=out[-3000:]))
     terms = []
     dist = collections.Counter()
+    # end-to-end runs: every stub of a valid definition called against a real peer whose object graph mirrors
+    # the definition (sub-objects by value and by pointer): the method at the same path must run
+    e2e = [r for r in recs if r["def"].endswith("/e2e")]
+    recs = [r for r in recs if not r["def"].endswith("/e2e")]
+    for r in e2e:
+        if r["linkerr"]:
+            hits += 1
+            res.violation("remote-e2e-link", "valid remote definition %s did not link against a real peer: %s" % (r["def"], r["linkerr"]), dict(kind="remote", case=r))
+        for p_, ran in sorted((r.get("e2e") or {}).items()):
+            dist["e2e-stub"] += 1
+            if ran != p_:
+                hits += 1
+                res.violation("remote-e2e:" + p_, "remote definition %s: invoking the function field at path %r ran %s on the peer, expected exactly the peer's method at path %r" % (
+                    r["def"], p_, ("the method(s) at %r" % ran) if ran else "nothing", p_), dict(kind="remote", case=r))
     expected = {"valid1": "", "valid2": "", "empty": "", "nofuncs": "", "chan-map-ptr": "", "sysremote": "", "epremote": "",
                 "badret0": "invalid return", "badret3": "invalid return", "badret-noerr": "invalid return", "badret-noerr1": "invalid return",
                 "badargs0": "invalid arguments", "badargs-noctx": "invalid arguments", "twobad": "invalid arguments",
@@ -84,7 +98,7 @@ def check(res, tier, seed):
     if getattr(res, "proof_broken", None):
         why, log = res.proof_broken
         res.violation("proof-broken", "proof obligations of %s no longer check: %s" % (pid, why), dict(log=log), no_failing_input=(hits == 0))
-    nstubs = sum(len(r.get("names") or {}) for r in recs)
+    nstubs = sum(len(r.get("names") or {}) for r in recs) + sum(len(r.get("e2e") or {}) for r in e2e)
     res.coverage.update(evaluations=len(recs) + nstubs, distinct_nontrivial=len(recs),
                         rule="each case = a hand-written remote definition type (valid nestings of depth 1-3 with non-function fields in all positions; invalid fields: no/too many results, "
                              "last result not an error, no parameters, first parameter not a context; first/nested/last position; two offenders in different orders) linked to a raw peer; "
